@@ -41,7 +41,7 @@ REPO = os.environ.get("VERIF_REPO", "/repo")
 VERIF = os.path.dirname(os.path.dirname(os.path.abspath(__file__)))
 CACHE = os.environ.get("VERIF_CACHE", os.path.join(VERIF, ".cache"))
 STUBS = os.path.join(VERIF, "stubs")
-FRONTEND_VERSION = "cxx-10"
+FRONTEND_VERSION = "cxx-11"
 
 CLANG = "clang++"
 
@@ -716,7 +716,7 @@ def wanted_file(f):
     if f is None:
         return False
     f = f.replace(REPO + "/", "")
-    return f.startswith("src/") or f.startswith("include/awkward")  # (the generated kernels.h has no bodies)
+    return f.startswith("src/") or f.startswith("include/awkward") or f.startswith(os.path.join(VERIF, "selftest"))
 
 
 def extract(objs, index, want_inst=True):
